@@ -541,6 +541,16 @@ func staleDeleteScenario() []op {
 	}
 }
 
+// a keep-alive response that arrives after the leadership was reset (lease.Close()) changes nothing
+func lateKeepAliveAfterResetScenario() []op {
+	return []op{
+		{K: "Campaign", M: 0, TTL: 3}, {K: "KeepBegin", M: 0}, {K: "Reset", M: 0}, {K: "KeepEnd", M: 0},
+		{K: "IsLeader", M: 0}, {K: "Read"},
+		{K: "Campaign", M: 1, TTL: 60}, {K: "Read"},
+		{K: "IsLeader", M: 0}, {K: "IsLeader", M: 1},
+	}
+}
+
 // the same with member 0 stopped between its read of the record and whatever it does next
 func staleDeleteAfterReadScenario() []op {
 	l := staleDeleteScenario()
@@ -681,6 +691,60 @@ func revokeWindowProbe(R *res.Result) {
 	<-done
 }
 
+// keepAliveAfterCloseProbe: the order of a PD leader's step-down in server.campaignLeader: the deferred
+// ResetAllocatorGroup(Global) resets the leadership (lease.Close(): expiry zeroed, lease revoked) while the keep-alive
+// goroutine is still running (its context is cancelled only later, together with ResetLeader). A keep-alive response
+// that etcd produced before the revocation and that arrives after Close() must not make the resigned member believe in
+// its lease again: from the revocation on another member may win.
+func keepAliveAfterCloseProbe(R *res.Result) {
+	e, err := etcdx.StartOpt(50, 500)
+	if err != nil {
+		R.Notes = append(R.Notes, "keep-alive-after-close probe skipped: "+err.Error())
+		return
+	}
+	defer e.Close()
+	admin, _, err := e.NewClient()
+	if err != nil {
+		return
+	}
+	w := &world{e: e, admin: admin, root: "/c03/kaclose", known: map[clientv3.LeaseID]bool{}, short: map[int]time.Time{}}
+	for i := 0; i < 2; i++ {
+		w.mems = append(w.mems, w.newMember(i))
+	}
+	a, b := w.mems[0], w.mems[1]
+	if err := a.m.CampaignLeader(3); err != nil {
+		return
+	}
+	a.m.EnableLeader()
+	a.keep.Hold()
+	kctx, kcancel := context.WithCancel(context.Background())
+	defer kcancel()
+	go a.m.KeepLeader(kctx)
+	select {
+	case <-a.keep.Held(): // etcd has renewed the lease, the response is on its way
+	case <-time.After(10 * time.Second):
+		R.Notes = append(R.Notes, "keep-alive-after-close probe: no keep-alive response seen")
+		return
+	}
+	a.m.GetLeadership().Reset() // what ResetAllocatorGroup(Global) does first
+	closedCheck := a.m.GetLeadership().Check()
+	a.keep.Release() // the response arrives now
+	time.Sleep(150 * time.Millisecond)
+	check, isLeader := a.m.GetLeadership().Check(), a.m.IsLeader()
+	berr := b.m.CampaignLeader(60)
+	if berr == nil {
+		b.m.EnableLeader()
+	}
+	R.Count("keep-alive-after-close:probed")
+	if closedCheck || check || isLeader {
+		R.Violate("C03:resigned-member-valid-again-after-late-keep-alive-response",
+			fmt.Sprintf("member 0 leads with a 3 s lease; a keep-alive response is in flight when its leadership is reset (lease.Close(): expiry zeroed, lease revoked; Check() = %v right after); the response arrives: Check() = %v, IsLeader() = %v; member 1 campaigns: %v, IsLeader() of member 1 = %v", closedCheck, check, isLeader, berr, b.m.IsLeader()),
+			map[string]interface{}{"check_after_close": closedCheck, "check_after_response": check, "is_leader": isLeader, "other_member_won": berr == nil})
+	}
+	kcancel()
+	a.m.ResetLeader()
+}
+
 func main() {
 	seed := flag.Uint64("seed", 1, "")
 	n := flag.Int("n", 200, "number of generated cases")
@@ -732,6 +796,7 @@ func main() {
 		add(2, staleDeleteScenario())
 		add(2, staleDeleteAfterReadScenario())
 		add(2, slowKeepAliveScenario())
+		add(2, lateKeepAliveAfterResetScenario())
 		master := rng.New(*seed)
 		for k := 0; k < *n; k++ {
 			r := master.Fork(uint64(k))
@@ -740,6 +805,7 @@ func main() {
 	}
 	if *replay == "" {
 		revokeWindowProbe(R)
+		keepAliveAfterCloseProbe(R)
 	}
 	results := make([]*caseRec, len(jobs))
 	ch := make(chan job)
